@@ -1114,6 +1114,13 @@ func (c *Ctx) globalFacts(name string, v Val) {
 		c.assume("(forall ((i Int)) (! (= (select " + v.C[1] + " i) 0) :pattern ((select " + v.C[1] + " i))))")
 	case "blackTags":
 		c.assume(sEq(lenT, fmt.Sprint(len(tb.BlackTags))))
+		mx := 0
+		for _, t := range tb.BlackTags {
+			if len(t) > mx {
+				mx = len(t)
+			}
+		}
+		c.assume(fmt.Sprintf("(forall ((i Int)) (! (=> (and (<= 0 i) (< i %d)) (and (<= 0 (select %s i)) (<= (select %s i) %d))) :pattern ((select %s i))))", len(tb.BlackTags), v.C[2], v.C[2], mx, v.C[2]))
 	case "blackEvents":
 		c.assume(sEq(lenT, fmt.Sprint(len(tb.BlackEvents))))
 		c.nameTypeFacts(v, tb.BlackEvents)
@@ -1127,6 +1134,13 @@ func (c *Ctx) globalFacts(name string, v Val) {
 
 func (c *Ctx) nameTypeFacts(v Val, es []NameType) {
 	// components: name.a name.o name.l attributeType len
+	maxLen := 0
+	for _, e := range es {
+		if len(e.Name) > maxLen {
+			maxLen = len(e.Name)
+		}
+	}
+	c.assume(fmt.Sprintf("(forall ((i Int)) (! (=> (and (<= 0 i) (< i %d)) (and (<= 0 (select %s i)) (<= (select %s i) %d))) :pattern ((select %s i))))", len(es), v.C[2], v.C[2], maxLen, v.C[2]))
 	for i, e := range es {
 		c.assume(sEq(sSel(v.C[3], fmt.Sprint(i)), fmt.Sprint(e.Type)))
 		c.assume(sEq(sSel(v.C[2], fmt.Sprint(i)), fmt.Sprint(len(e.Name))))
